@@ -201,7 +201,7 @@ theorem universalArr_range {α : Type} [DecidableEq α] (B : Backend) (u : List 
       rw [hij])
   simp only at hlen hg
   rw [hv]
-  have h2 : FinFun.gatherP v (List.range v.length) = v := Prim.gatherP_range v
+  have h2 : Prim.gatherP v (List.range v.length) = v := Prim.gatherP_range v
   rw [hlen] at h2
   rw [← hg, h2]
 
@@ -211,7 +211,7 @@ theorem quotientH_nopending [DecidableEq O] (B : Backend) (hB : IdCC B) (h : LHG
   have hadj : h.adjacency.mapM (fun e => do
       let s ← e.sources.mapM (fun i => Prim.get (List.range h.nodes.length) i)
       let t ← e.targets.mapM (fun i => Prim.get (List.range h.nodes.length) i)
-      pure (⟨s, t⟩ : LEdge)) = Res.ok h.adjacency := by
+      Res.ok (⟨s, t⟩ : LEdge)) = Res.ok h.adjacency := by
     rw [Res.mapM_ok _ id]
     · simp
     · intro e he
@@ -253,6 +253,159 @@ theorem toStrict_nopending [DecidableEq O] (B : Backend) (hB : IdCC B) (d : LOHG
   simp only [Res.ok_bind, Bool.not_true, Bool.false_eq_true, if_false,
     IC.finfun_new_ok _ _ hs, IC.finfun_new_ok _ _ ht, Res.unwrap_ok, toHypergraph_eq _ hr]
   simp [OHG.new, OHG.validate, HG.validate, IC.len, FinFun.source, IC.ofSegs, hlen, pack]
+
+/-! ### the two packings are mutually inverse -/
+
+/-- the lax diagram with literally the data of a strict diagram -/
+def unpack (f : OHG O A) : LOHG O A :=
+  ⟨f.s.table, f.t.table, ⟨f.h.w, f.h.x, List.zipWith LEdge.mk f.h.s.segs f.h.t.segs, ([], [])⟩⟩
+
+theorem lohg_fromStrict_eq (f : OHG O A)
+    (hs : f.h.s.sources.table.sum ≤ f.h.s.values.table.length)
+    (ht : f.h.t.sources.table.sum ≤ f.h.t.values.table.length) :
+    LOHG.fromStrict f = .ok (unpack f) := by
+  unfold LOHG.fromStrict
+  rw [lhg_fromStrict_eq f.h hs ht]
+  rfl
+
+theorem mem_zipWith_mk (a b : List (List Nat)) (e : LEdge) (he : e ∈ List.zipWith LEdge.mk a b) :
+    e.sources ∈ a ∧ e.targets ∈ b := by
+  induction a generalizing b with
+  | nil => simp at he
+  | cons x a ih =>
+    cases b with
+    | nil => simp at he
+    | cons y b =>
+      simp only [List.zipWith_cons_cons, List.mem_cons] at he
+      rcases he with rfl | he
+      · simp
+      · have := ih b he
+        simp [this.1, this.2]
+
+theorem unpack_wf (f : OHG O A) (hwf : f.wf = true) : (unpack f).wf = true := by
+  obtain ⟨hh, hs, ht, hst, htt⟩ := (ohg_wf_iff f).1 hwf
+  obtain ⟨hsw, htw, hsl, htl, hsv, htv⟩ := (hg_wf_iff _).1 hh
+  obtain ⟨_, _, hsvw⟩ := (ic_wf_iff _).1 hsw
+  obtain ⟨_, _, htvw⟩ := (ic_wf_iff _).1 htw
+  rw [lohg_wf_iff, lhg_wf_iff]
+  refine ⟨⟨?_, ?_, rfl, by simp [unpack], by simp [unpack]⟩, ?_, ?_⟩
+  · simp [unpack, IC.segs_length, hsl, htl]
+  · intro e he
+    obtain ⟨h1, h2⟩ := mem_zipWith_mk _ _ e he
+    constructor
+    · intro i hi
+      have := hsvw i (mem_of_mem_splitSegs _ _ _ _ h1 hi)
+      show i < f.h.w.length
+      omega
+    · intro i hi
+      have := htvw i (mem_of_mem_splitSegs _ _ _ _ h2 hi)
+      show i < f.h.w.length
+      omega
+  · intro i hi
+    have := hs i hi
+    show i < f.h.w.length
+    omega
+  · intro i hi
+    have := ht i hi
+    show i < f.h.w.length
+    omega
+
+theorem pack_unpack (f : OHG O A) (hwf : f.wf = true) : pack (unpack f) = f := by
+  obtain ⟨hh, _, _, hst, htt⟩ := (ohg_wf_iff f).1 hwf
+  obtain ⟨hsw, htw, hsl, htl, hsv, htv⟩ := (hg_wf_iff _).1 hh
+  obtain ⟨hsvalid, _, _⟩ := (ic_wf_iff _).1 hsw
+  obtain ⟨htvalid, _, _⟩ := (ic_wf_iff _).1 htw
+  have hlen : f.h.s.segs.length = f.h.t.segs.length := by
+    rw [IC.segs_length, IC.segs_length, hsl, htl]
+  have e1 := IC.ofSegs_segs f.h.s hsvalid
+  have e2 := IC.ofSegs_segs f.h.t htvalid
+  rw [hsv] at e1
+  rw [htv] at e2
+  obtain ⟨⟨st, sg⟩, ⟨tt, tg⟩, ⟨hs, ht, w, x⟩⟩ := f
+  simp only at hst htt e1 e2 hlen
+  subst hst htt
+  simp only [pack, unpack, zipWith_mk_sources _ _ hlen, zipWith_mk_targets _ _ hlen, e1, e2]
+
+theorem unpack_pack (d : LOHG O A) (hq : d.hypergraph.quotient = ([], [])) :
+    unpack (pack d) = d := by
+  obtain ⟨s, t, ⟨n, e, a, q⟩⟩ := d
+  simp only at hq
+  subst hq
+  simp only [unpack, pack, IC.segs_ofSegs, zipWith_mk_map]
+
+theorem ofSegs_wf (l : List (List Nat)) (n : Nat) (h : ∀ seg ∈ l, ∀ i ∈ seg, i < n) :
+    (IC.ofSegs l n).wf = true := by
+  rw [ic_wf_iff]
+  refine ⟨IC.ofSegs_valid l n, ?_, ?_⟩
+  · intro x hx
+    have hx' : x ∈ l.map List.length := hx
+    have := le_sum_of_mem' _ x hx'
+    show x < (l.map List.length).foldl (· + ·) 0 + 1
+    rw [FinFun.foldl_add_eq]
+    omega
+  · intro x hx
+    obtain ⟨seg, hseg, hxs⟩ := List.mem_flatten.1 hx
+    exact h seg hseg x hxs
+
+theorem pack_wf (d : LOHG O A) (hwf : d.wf = true) : (pack d).wf = true := by
+  obtain ⟨hh, hs, ht⟩ := (lohg_wf_iff d).1 hwf
+  obtain ⟨hlen, hr, _⟩ := (lhg_wf_iff _).1 hh
+  rw [ohg_wf_iff, hg_wf_iff]
+  refine ⟨⟨?_, ?_, ?_, ?_, rfl, rfl⟩, hs, ht, rfl, rfl⟩
+  · apply ofSegs_wf
+    intro seg hseg i hi
+    obtain ⟨e, he, rfl⟩ := List.mem_map.1 hseg
+    exact (hr e he).1 i hi
+  · apply ofSegs_wf
+    intro seg hseg i hi
+    obtain ⟨e, he, rfl⟩ := List.mem_map.1 hseg
+    exact (hr e he).2 i hi
+  · simp [pack, IC.ofSegs, IC.len, FinFun.source, hlen]
+  · simp [pack, IC.ofSegs, IC.len, FinFun.source, hlen]
+
+/-! ### boundary types and lax composition -/
+
+theorem target_eq (f : LOHG O A) :
+    f.target = if ∀ i ∈ f.targets, i < f.hypergraph.nodes.length
+      then .ok (Prim.gatherP f.hypergraph.nodes f.targets) else .panic "get:index" :=
+  mapM_get_eq _ _
+
+theorem source_eq (f : LOHG O A) :
+    f.source = if ∀ i ∈ f.sources, i < f.hypergraph.nodes.length
+      then .ok (Prim.gatherP f.hypergraph.nodes f.sources) else .panic "get:index" :=
+  mapM_get_eq _ _
+
+theorem foldl_unify (h : LHG O A) (n : Nat) (ps : List (Nat × Nat)) :
+    ps.foldl (fun h p => h.unify p.1 (p.2 + n)) h =
+      { h with quotient := (h.quotient.1 ++ ps.map (·.1), h.quotient.2 ++ ps.map (·.2 + n)) } := by
+  induction ps generalizing h with
+  | nil => simp
+  | cons p ps ih =>
+    rw [List.foldl_cons, ih]
+    simp [LHG.unify]
+
+/-- the closed form of `lax_compose` -/
+theorem laxCompose_eq (f g : LOHG O A) :
+    LOHG.laxCompose f g =
+      if f.targets.length = g.sources.length then
+        .ok ⟨f.sources, g.targets.map (· + f.hypergraph.nodes.length),
+          { LHG.coproduct f.hypergraph g.hypergraph with
+            quotient :=
+              ((LHG.coproduct f.hypergraph g.hypergraph).quotient.1 ++ f.targets,
+               (LHG.coproduct f.hypergraph g.hypergraph).quotient.2 ++
+                 g.sources.map (· + f.hypergraph.nodes.length)) }⟩
+      else .none := by
+  unfold LOHG.laxCompose
+  by_cases h : f.targets.length = g.sources.length
+  · rw [if_neg (by simpa using h), if_pos h]
+    simp only [foldl_unify, LOHG.tensor, List.take_left', List.drop_left', Res.ok.injEq]
+    congr 3
+    · rw [List.map_fst_zip (Nat.le_of_eq h)]
+    · have := List.map_snd_zip (l₁ := f.targets) (l₂ := g.sources) (Nat.le_of_eq h.symm)
+      conv => rhs; rw [← this]
+      rw [List.map_map]
+      rfl
+  · rw [if_pos (by simpa using h), if_neg h]
 
 end LaxStrict
 end OH
